@@ -116,12 +116,16 @@ impl Property for C02 {
     }
     fn strategy(&self, tier: Tier) -> BoxedStrategy<C02Case> {
         let lmax = lmax_dyn(tier);
-        let vec_case = (arb_operand(tier), arb_tid(), arb_len_sel(), arb_divisor_sel(), arb_prov(), arb_kind_form()).prop_map(move |(a, bt, bls, sel, bprov, (kind, form))| {
+        let vec_case = (arb_operand(tier), arb_tid(), arb_len_sel(), arb_divisor_sel(), arb_prov(), arb_kind_form()).prop_map(move |(mut a, bt, bls, sel, bprov, (kind, form))| {
+            clamp_huge_dividend(&mut a);
             let m = realize_len(&bls, bt, lmax);
             let bb = divisor_bits(&a.bits, m, WORD_BITS[bt as usize], &sel);
             C02Case { a, b: Rhs::V(Operand { ty: bt, bits: bb, prov: bprov }), kind, form }
         });
-        let nat_case = (arb_operand(tier), arb_nat(), any::<bool>(), 0usize..6).prop_map(|(a, x, d, f)| C02Case { a, b: Rhs::N(x), kind: if d { DivKind::Div } else { DivKind::Rem }, form: FORMS[f] });
+        let nat_case = (arb_operand(tier), arb_nat(), any::<bool>(), 0usize..6).prop_map(|(mut a, x, d, f)| {
+            clamp_huge_dividend(&mut a);
+            C02Case { a, b: Rhs::N(x), kind: if d { DivKind::Div } else { DivKind::Rem }, form: FORMS[f] }
+        });
         prop_oneof![3 => vec_case, 1 => nat_case].boxed()
     }
     fn exhaustive_subspaces(&self, tier: Tier) -> Vec<String> {
@@ -135,8 +139,8 @@ impl Property for C02 {
         let k = tier.pick(4, 6);
         let mut rot = 0usize;
         let kinds = [DivKind::Div, DivKind::Rem, DivKind::DivRem];
-        for lt in 0..NT {
-            for rt in 0..NT {
+        for lt in ROUTINE_TIDS {
+            for rt in ROUTINE_TIDS {
                 if !sh.mine() {
                     continue;
                 }
@@ -148,7 +152,7 @@ impl Property for C02 {
                                     for pa in scope_provs(lt) {
                                         for pb in scope_provs(rt) {
                                             rot += 1;
-                                            let c = C02Case { a: Operand { ty: lt, bits: a.clone(), prov: pa.clone() }, b: Rhs::V(Operand { ty: rt, bits: b.clone(), prov: pb }), kind, form: FORMS[rot % 6] };
+                                            let c = C02Case { a: Operand::fitted(lt, a.clone(), pa.clone()), b: Rhs::V(Operand::fitted(rt, b.clone(), pb)), kind, form: FORMS[rot % 6] };
                                             if !f(c) {
                                                 return;
                                             }
@@ -161,7 +165,7 @@ impl Property for C02 {
                 }
             }
         }
-        for lt in 0..NT {
+        for lt in ROUTINE_TIDS {
             for nty in NAT_TYS {
                 if !sh.mine() {
                     continue;
@@ -244,8 +248,34 @@ impl Property for C02 {
             }
         }
         // divisor-length sweep (the "long but small divisor" class)
+        // the 70 400-bit type as dividend (cut to a few thousand bits: cost) and as divisor
+        for (lt, rt) in [(TID_HUGE, TID_HUGE), (TID_HUGE, TID_D), (TID_HUGE, TID_A), (TID_HUGE, 4u8), (TID_D, TID_HUGE), (TID_A, TID_HUGE), (18u8, TID_HUGE)] {
+            if !sh.mine() {
+                continue;
+            }
+            let lc = fixed_cap(lt).unwrap_or(usize::MAX);
+            let rc = fixed_cap(rt).unwrap_or(usize::MAX);
+            for n in [131usize, 1003, 4097] {
+                let n = n.min(lc);
+                for m in [n, n / 2 + 7, 64usize, 9000] {
+                    let m = m.min(rc);
+                    for (a, b) in [(long_values(n)[1].clone(), long_values(m)[1].clone()), (Bits::ones(n), Bits::from_u128(3, m)), (long_values(n)[5].clone(), Bits::ones(m.min(n / 2))), (Bits::ones(n), Bits::zeros(m))] {
+                        for kind in kinds {
+                            rot += 1;
+                            let c = C02Case { a: Operand::canon(lt, a.clone()), b: Rhs::V(Operand::canon(rt, b.clone())), kind, form: FORMS[rot % 6] };
+                            if !f(c) {
+                                return;
+                            }
+                        }
+                    }
+                }
+            }
+        }
         for lt in FIXED_TIDS {
-            for rt in 0..NT {
+            if lt == TID_HUGE {
+                continue;
+            }
+            for rt in ROUTINE_TIDS {
                 if !sh.mine() {
                     continue;
                 }
